@@ -115,6 +115,23 @@ func precedenceCheck(got, winner, loser *sbom.Node) (string, string) {
 	return "", ""
 }
 
+// kindCheck judges the node kind of a merged node where the statement's rule (winner's value when non-empty, i.e.
+// not PACKAGE=0, else the other's) and the behaviour the repository's own tests pin (the node already in the list,
+// base, keeps its kind) give the same answer; elsewhere the kind is not judged.
+func kindCheck(got, winner, loser, base *sbom.Node) string {
+	literal := winner.Type
+	if literal == 0 {
+		literal = loser.Type
+	}
+	if literal != base.Type {
+		return ""
+	}
+	if got.Type != literal {
+		return fmt.Sprintf("node kind = %s, want %s (winner has %s, other has %s)", got.Type, literal, winner.Type, loser.Type)
+	}
+	return ""
+}
+
 // attrNodeMaker populates every attribute independently with probability 1/2.
 func attrNodeMaker(r *rand.Rand, id string) *sbom.Node {
 	o := gen.DefaultPop()
